@@ -34,7 +34,7 @@ def run(patch, props, verbose=True):
         for p, rc, txt in res:
             out[p] = rc
             if rc != 0 and verbose:
-                lines = [l for l in txt.splitlines() if l.startswith(("FINDING", "ANALYSIS-ERROR"))]
+                lines = [l for l in txt.splitlines() if l.startswith(("FINDING", "ANALYSIS-ERROR", "UNRECOGNISED"))]
                 print(f"== {p} exit {rc}")
                 for l in lines[:4]:
                     print("   ", l[:330].replace(tmp, ""))
